@@ -90,7 +90,6 @@ class TwoRateTokenBucket(Device):
                     self.update_time = env.now
                 elif packet.size > self.current_bucket_commit:
                     self.current_bucket_peak -= packet.size
-                    self.current_bucket_commit = 0.0
                     packet.color = "yellow"
                     self.update_time = env.now
                 else:
